@@ -23,6 +23,8 @@ ASSUMPTIONS = [
     'cloud deck: only the transit geometry is judged (emission indexes per-layer opacities differently)',
 ]
 REQUIRED = {'kind:clouds': 0.2, 'kind:flat': 0.2, 'kind:lee': 0.2, 'bound:unset': 0.08, 'window:inside': 0.04}
+# coverage-guided extra (thorough tier): pure-Python taurex modules on this property's path, instrumented by atheris
+FUZZ = {'include': ['taurex.contributions.simpleclouds', 'taurex.contributions.flatmie', 'taurex.contributions.leemie'], 'runs': 12000, 'workers': 4}
 
 
 def _bound():
